@@ -57,6 +57,7 @@ func (s *service) Create(ctx context.Context, record kvs.Record) (string, error)
 	if ctx.Err() != nil {
 		return "", ctx.Err()
 	}
+	s.dropIfExpired(record.Key)
 	if r, ok := s.recs[record.Key]; ok {
 		return r.Version, errors.ErrExist
 	}
@@ -151,6 +152,7 @@ func (s *service) Delete(ctx context.Context, key string) error {
 	s.lock.Lock()
 	defer s.lock.Unlock()
 
+	s.dropIfExpired(key)
 	if _, ok := s.recs[key]; !ok {
 		return errors.ErrNotExist
 	}
@@ -209,11 +211,23 @@ func (s *service) ListKeys(ctx context.Context, pattern string) (iterable.Iterat
 	}
 	res := []string{}
 	for k := range s.recs {
+		s.dropIfExpired(k)
+	}
+	for k := range s.recs {
 		if g.Match(k) {
 			res = append(res, k)
 		}
 	}
 	return &keysIterator{res: res}, nil
+}
+
+// dropIfExpired removes the record for the key if its expiration time has passed,
+// so an expired record is treated as deleted. Must be called under the lock.
+func (s *service) dropIfExpired(key string) {
+	if r, ok := s.recs[key]; ok && r.ExpiresAt != nil && r.ExpiresAt.Before(time.Now()) {
+		delete(s.recs, key)
+		s.notifyWaiters(key)
+	}
 }
 
 func (s *service) notifyWaiters(key string) {
